@@ -104,118 +104,48 @@ class SATEncoder:
 
     # Expression handling
 
-    def _flatten_sum(self, expr: Any) -> tuple[list["IntVar"], int]:
-        """Flatten a sum expression into (list of variables, constant offset)."""
-        from solvor.cp import IntVar
-
-        terms: list[IntVar] = []
-        const = 0
-
-        def flatten(e: Any) -> None:
-            nonlocal const
-            if isinstance(e, IntVar):
-                terms.append(e)
-            elif isinstance(e, int):
-                const += e
-            elif isinstance(e, tuple) and e[0] == "add":
-                flatten(e[1])
-                flatten(e[2])
-            elif isinstance(e, tuple) and e[0] == "mul":
-                # Handle multiplication: (mul, var_or_expr, int_coef)
-                _, operand, coef = e
-                if isinstance(operand, IntVar) and isinstance(coef, int):
-                    # For now, we can only handle coef == 1 directly
-                    # More complex cases need auxiliary variables
-                    for _ in range(coef):
-                        terms.append(operand)
-                elif isinstance(coef, IntVar) and isinstance(operand, int):
-                    for _ in range(operand):
-                        terms.append(coef)
-
-        flatten(expr)
-        return terms, const
+    def _flatten_sum(self, expr: Any) -> tuple[dict[str, int], int]:
+        """Linear form of an expression: ({variable name: coefficient}, constant)."""
+        return self.model._flatten_sum(expr)
 
     def _encode_ne_expr(self, left: Any, right: Any, is_ne: bool) -> None:
-        """Encode (left_expr != right_expr) or (left_expr == right_expr).
+        """Encode (left_expr != right_expr) or (left_expr == right_expr) for linear expressions.
 
-        Handles linear expressions like (x + c1) != (y + c2).
+        The constraint is sum(coef * var) + const (== or !=) 0. The partial sums over the
+        variables are chained through auxiliary integer variables; the last one is compared
+        with -const.
         """
-        from solvor.cp import IntVar
+        coefs, const = self._flatten_sum(left)
+        right_coefs, right_const = self._flatten_sum(right)
+        for name, k in right_coefs.items():
+            coefs[name] = coefs.get(name, 0) - k
+        const -= right_const
+        target = -const
 
-        # Handle subtraction: (x - y) ?= c => x ?= y + c
-        if isinstance(left, tuple) and left[0] == "sub":
-            x, y = left[1], left[2]
-            if isinstance(x, IntVar) and isinstance(y, IntVar):
-                right_const = right if isinstance(right, int) else 0
-                if is_ne:
-                    for v1 in x.bool_vars:
-                        v2 = v1 - right_const
-                        if v2 in y.bool_vars:
-                            self._clauses.append([-x.bool_vars[v1], -y.bool_vars[v2]])
-                else:
-                    for v1 in x.bool_vars:
-                        v2 = v1 - right_const
-                        if v2 in y.bool_vars:
-                            self._clauses.append([-x.bool_vars[v1], y.bool_vars[v2]])
-                            self._clauses.append([x.bool_vars[v1], -y.bool_vars[v2]])
-                        else:
-                            self._clauses.append([-x.bool_vars[v1]])
-                return
-
-        left_terms, left_const = self._flatten_sum(left)
-        right_terms, right_const = self._flatten_sum(right)
-
-        # Handle case: single var + const on left, constant on right
-        if len(left_terms) == 1 and len(right_terms) == 0:
-            var = left_terms[0]
-            target = right_const - left_const
-            if is_ne:
-                self._encode_ne_const(var, target)
-            else:
-                self._encode_eq_const(var, target)
+        terms = [(self.model._vars[name], k) for name, k in coefs.items() if k != 0]
+        if not terms:
+            if (target != 0) != is_ne:
+                self._clauses.append([])
             return
 
-        # Handle case: constant on left, single var + const on right
-        if len(left_terms) == 0 and len(right_terms) == 1:
-            var = right_terms[0]
-            target = left_const - right_const
-            if is_ne:
-                self._encode_ne_const(var, target)
-            else:
-                self._encode_eq_const(var, target)
-            return
+        # reached[s] is a literal that is true exactly when the partial sum equals s
+        var, k = terms[0]
+        reached = {k * v: lit for v, lit in var.bool_vars.items()}
+        for var, k in terms[1:]:
+            sums = {s + k * v for s in reached for v in var.bool_vars}
+            partial = self._create_int_var(min(sums), max(sums))
+            for s, s_lit in reached.items():
+                for v, v_lit in var.bool_vars.items():
+                    self._clauses.append([-s_lit, -v_lit, partial.bool_vars[s + k * v]])
+            reached = {s: partial.bool_vars[s] for s in sums}
 
-        # Handle case: two vars on left, constant on right
-        if len(left_terms) == 2 and len(right_terms) == 0:
-            target = right_const - left_const
-            if is_ne:
-                v1, v2 = left_terms
-                for val1 in v1.bool_vars:
-                    val2 = target - val1
-                    if val2 in v2.bool_vars:
-                        self._clauses.append([-v1.bool_vars[val1], -v2.bool_vars[val2]])
-            else:
-                self._encode_sum_eq(left_terms, target)
-            return
-
-        # Handle simple case: single var + const on each side
-        if len(left_terms) == 1 and len(right_terms) == 1:
-            var1, var2 = left_terms[0], right_terms[0]
-            offset = right_const - left_const
-
-            if is_ne:
-                for v1 in var1.bool_vars:
-                    v2 = v1 - offset
-                    if v2 in var2.bool_vars:
-                        self._clauses.append([-var1.bool_vars[v1], -var2.bool_vars[v2]])
-            else:
-                for v1 in var1.bool_vars:
-                    v2 = v1 - offset
-                    if v2 in var2.bool_vars:
-                        self._clauses.append([-var1.bool_vars[v1], var2.bool_vars[v2]])
-                        self._clauses.append([var1.bool_vars[v1], -var2.bool_vars[v2]])
-                    else:
-                        self._clauses.append([-var1.bool_vars[v1]])
+        if is_ne:
+            if target in reached:
+                self._clauses.append([-reached[target]])
+        elif target in reached:
+            self._clauses.append([reached[target]])
+        else:
+            self._clauses.append([])
 
     # Sum constraints
 
@@ -489,10 +419,6 @@ class SATEncoder:
             self._encode_ne_var(constraint[1], constraint[2])
         elif kind == "ne_expr":
             self._encode_ne_expr(constraint[1], constraint[2], constraint[3])
-        elif kind == "add":
-            terms, const = self._flatten_sum(constraint)
-            if len(terms) == 0 and const != 0:
-                self._clauses.append([])
         elif kind == "sum_eq":
             self._encode_sum_eq(list(constraint[1]), constraint[2])
         elif kind == "sum_le":
